@@ -1,0 +1,69 @@
+//go:build verif
+
+// Package c09 re-exports what the C09 verification harness (a different
+// module) needs from the internal log store packages: constructors of the real
+// stores over an in-memory file system. Add-only; compiled only with
+// -tags verif.
+package c09
+
+import (
+	"github.com/lni/dragonboat/v4/config"
+	"github.com/lni/dragonboat/v4/internal/logdb"
+	"github.com/lni/dragonboat/v4/internal/settings"
+	"github.com/lni/dragonboat/v4/internal/tan"
+	"github.com/lni/dragonboat/v4/internal/vfs"
+	"github.com/lni/dragonboat/v4/raftio"
+)
+
+// FS is the file system type used by the stores.
+type FS = vfs.IFS
+
+// NewMemFS returns a new in-memory file system.
+func NewMemFS() FS {
+	return vfs.NewMemFS()
+}
+
+func getConfig(fs FS, shards uint64) config.NodeHostConfig {
+	expert := config.GetDefaultExpertConfig()
+	expert.LogDB = config.GetTinyMemLogDBConfig()
+	expert.LogDB.Shards = shards
+	expert.FS = fs
+	return config.NodeHostConfig{Expert: expert}
+}
+
+// OpenPebble opens the default sharded Pebble based LogDB in the plain or the
+// batched entry format.
+func OpenPebble(fs FS, dir string, shards uint64, batched bool) (raftio.ILogDB, error) {
+	cfg := getConfig(fs, shards)
+	if batched {
+		return logdb.NewDefaultBatchedLogDB(cfg, nil, []string{dir}, []string{})
+	}
+	return logdb.NewDefaultLogDB(cfg, nil, []string{dir}, []string{})
+}
+
+// OpenTan opens a regular or log multiplexed Tan LogDB.
+func OpenTan(fs FS, dir string, multiplexed bool) (raftio.ILogDB, error) {
+	cfg := getConfig(fs, 1)
+	// tan allocates 16 buffers of this size per LogDB instance
+	cfg.Expert.LogDB.KVWriteBufferSize = 64 * 1024
+	if multiplexed {
+		return tan.CreateLogMultiplexedTan(cfg, nil, []string{dir}, []string{})
+	}
+	return tan.CreateTan(cfg, nil, []string{dir}, []string{})
+}
+
+// TanPreopen opens the tan db of the specified node with a small max log file
+// size.
+func TanPreopen(db raftio.ILogDB, shardID uint64, replicaID uint64, maxLogFileSize int64) error {
+	return db.(*tan.LogDB).VerifC09Preopen(shardID, replicaID, maxLogFileSize)
+}
+
+// BatchSize is the entry batch size used by the batched entry format.
+func BatchSize() uint64 {
+	return settings.Hard.LogDBEntryBatchSize
+}
+
+// TanIndexBlockSize is tan's indexBlockSize constant.
+func TanIndexBlockSize() int64 {
+	return tan.VerifC09IndexBlockSize()
+}
